@@ -48,6 +48,8 @@ pub fn idle_lines() -> Vec<&'static str> {
         "DIM D(1,1,1,1,1,1,1,1,1,1,1,1,1,1,1,1,1,1,1,1)",
         "A(1)=1",
         "PRINT A(4294967296)",
+        // a huge subscript on a later axis (its offset is the subscript times the earlier axes' size)
+        "X=M(0,4611686018427387904): L(1,2,9223372036854775807)=5",
         "PRINT A(-1)",
         "PRINT 1/0",
         "PRINT RND(1)",
@@ -80,6 +82,16 @@ pub fn idle_lines() -> Vec<&'static str> {
         "RUN 30",
         "CONT 1",
     ]
+}
+
+/// Where the caret line must point for a line that does not tokenize: under the character the
+/// tokenizer stopped at (counted in characters of the line as entered).
+pub fn expected_caret_column(entered: &str) -> Option<usize> {
+    let skip = abasic_core::verif::parse_line_number(entered).map(|(_, e)| e).unwrap_or(0);
+    match abasic_core::verif::tokenize_skipping(entered, skip) {
+        Err(e) if e.range.start <= entered.len() && entered.is_char_boundary(e.range.start) => Some(entered[..e.range.start].chars().count()),
+        _ => None,
+    }
 }
 
 pub fn alphabet() -> Vec<Ev> {
@@ -160,6 +172,14 @@ pub fn check_transition(t: &Transition, s: &mut Sess) -> Vec<Violation> {
                                     "tokenization error not attributed to the line just entered".into(),
                                     format!("entering {:?} gave {:?}, rendered as {:?}", entered, t.result, caret),
                                 ));
+                            } else if let (Some(col), Some(off)) = (expected_caret_column(&entered), caret[0].find(entered.as_str())) {
+                                let shown = caret[0][..off].chars().count() + col;
+                                if caret[1].chars().position(|c| c == '^') != Some(shown) {
+                                    out.push(mk(
+                                        "caret of a tokenization error is not under the offending character".into(),
+                                        format!("entering {:?}: the tokenizer stops at character {}, rendered as {:?}", entered, col, caret),
+                                    ));
+                                }
                             }
                         }
                     }
@@ -263,12 +283,27 @@ fn run_shape(text: &str) -> Vec<(String, Vec<Ev>)> {
                         if let Some(e) = s.last_err.take() {
                             let line = s.last_line.clone();
                             let it = &s.it;
-                            if let Err(p) = guarded(|| {
+                            match guarded(|| {
                                 let _ = e.to_string();
-                                let _ = e.get_line_with_pointer_caret(it, line.as_ref());
+                                e.get_line_with_pointer_caret(it, line.as_ref())
                             }) {
-                                problems.push((format!("error rendering panicked {}", short_panic(&p)), hist.clone()));
-                                break 'outer;
+                                Err(p) => {
+                                    problems.push((format!("error rendering panicked {}", short_panic(&p)), hist.clone()));
+                                    break 'outer;
+                                }
+                                Ok(caret) => {
+                                    // a line that does not tokenize: the caret stands under the character
+                                    // the tokenizer stopped at
+                                    if let (Some(entered), true) = (line.as_ref(), caret.len() == 2) {
+                                        if let (Some(col), Some(off)) = (expected_caret_column(entered), caret[0].find(entered.as_str())) {
+                                            let shown = caret[0][..off].chars().count() + col;
+                                            if format!("{:?}", e.error).contains("Tokenization") && caret[1].chars().position(|c| c == '^') != Some(shown) {
+                                                problems.push(("caret of a tokenization error is not under the offending character".into(), hist.clone()));
+                                                break 'outer;
+                                            }
+                                        }
+                                    }
+                                }
                             }
                         }
                     }
